@@ -195,5 +195,12 @@ func (r *subRegistry) repo(name string) string {
 		// empty name.
 		return ""
 	}
-	return path.Join(r.prefix, name)
+	joined := path.Join(r.prefix, name)
+	if joined != r.prefix && !strings.HasPrefix(joined, r.prefix+"/") {
+		// The name (for example "../x") would escape the prefix.
+		// Treat it like the empty name so that the underlying
+		// registry will reject it.
+		return ""
+	}
+	return joined
 }
